@@ -40,7 +40,12 @@ Inductive arg : Type :=
 | ACustom (x : arg)                     (* CustomHash(x, h) *)
 | ANoHashVal (v : val)                  (* NoHash(plain value) *)
 | ANoHashTask (t : tid)                 (* NoHash(task): the task object itself is handed over *)
-| AOpaque (inside : list tid) (v : val). (* an object value() leaves alone although tasks occur inside it *)
+| AOpaque (declared : list tid) (v : val).
+    (* an object value() hands over as it is (v, possibly with VTaskRef's inside).  [declared] = the tasks inside
+       it that Task.dependencies() nevertheless yields: an instance of a list/tuple/dict SUBCLASS (namedtuple,
+       OrderedDict, defaultdict, ...) is walked by the isinstance tests of dependencies() but left alone by the
+       exact type tests of value();  a set / frozenset / any other object holding tasks is ignored by both:
+       [declared] = [] *)
 
 (* ---- the dependency walk of the code ------------------------------------------------------- *)
 (* Task.dependencies(): work-list over args/kwargs; an object with __jug_dependencies__ contributes
@@ -58,7 +63,8 @@ Fixpoint impl_deps (a : arg) : list tid :=
   | AMapSeq blocks _ _ => blocks
   | AMapSlice blocks _ _ _ => blocks
   | ACustom x => impl_deps x
-  | ANoHashVal _ | ANoHashTask _ | AOpaque _ _ => []
+  | ANoHashVal _ | ANoHashTask _ => []
+  | AOpaque declared _ => declared
   end.
 
 (* ---- value() ------------------------------------------------------------------------------- *)
